@@ -2,12 +2,11 @@
     grid cell, the geometric regularity of a series, what it means for the files of a stack to be
     described by a list of [gfile]s. *)
 From Coq Require Import List Bool Arith ZArith NArith QArith Qcanon Lia.
-From DV Require Import Common.Res Common.Str Stack.Model Stack.ProofsShape Orient.Model Orient.Spec Conv.Geom.
+From DV Require Import Common.Res Common.Str Stack.Model Stack.ProofsShape Orient.Model Orient.Spec Orient.ProofsAff Conv.Geom.
 Import ListNotations.
 Local Open Scope nat_scope.
 
-(** a natural number as a rational *)
-Definition NQ (n : nat) : Q := inject_Z (Z.of_nat n).
+(** [NQ n] (Orient.ProofsAff): a natural number as a rational *)
 
 (** matrix times vector *)
 Definition mat_vec (A : mat) (v : list Q) : list Q := map (fun row => dot row v) A.
@@ -76,5 +75,7 @@ Definition on_line (gs : list gfile) (ord : list nat) (S : nat) : Prop :=
 Definition sources_regular (gs : list gfile) (st : state) : Prop :=
   exists (g0 : gfile) (o d : list Q) (p0 dp : Q),
     (forall f g, In f (files st) -> glookup gs (f_id f) = Some g ->
-       same_frame g g0 /       forall r, r < 3 -> (vget (g_ipp g) r == vget o r + this (f_pos f) * vget d r)%Q) /    (forall s, s < length (pos_vals st) ->
+       same_frame g g0 /\
+       forall r, r < 3 -> (vget (g_ipp g) r == vget o r + this (f_pos f) * vget d r)%Q) /\
+    (forall s, s < length (pos_vals st) ->
        (this (nth s (ssort qc_leb (pos_vals st)) (Q2Qc 0)) == p0 + NQ s * dp)%Q).
